@@ -48,9 +48,19 @@ ReadMetadata(st, i, value) ==
 IsValid(st) == \A i \in Mandatory : st[i] # <<>>
 
 \* ---- the database as a directory configuration -------------------------------------------
-\* an entry of the database directory: [name, dir (BOOLEAN), files (subset of 1..14)]
+\* an entry of the database directory: [name, dir (BOOLEAN), files (subset of 1..14), utf8 (BOOLEAN)];
+\* files may be zero-length: only their existence matters to the iterator.  utf8 = FALSE: the
+\* directory name on disk is not valid UTF-8 (name = its valid prefix).
 ValidPkg(e) == e.dir /\ Mandatory \subseteq e.files
 \* what iteration must list (as a set of records; order is the directory's)
 Listed(cfg) == { [pkgname |-> cfg[i].name, base |-> PkgBase(cfg[i].name), version |-> PkgVer(cfg[i].name)]
-                 : i \in {j \in 1..Len(cfg) : ValidPkg(cfg[j])} }
+                 : i \in {j \in 1..Len(cfg) : ValidPkg(cfg[j]) /\ cfg[j].utf8} }
+\* a complete package directory whose name is not UTF-8 cannot be a `String` pkgname: the
+\* iterator reports it as one error item (and carries on with the next entry)
+ItemErrors(cfg) == Cardinality({j \in 1..Len(cfg) : ValidPkg(cfg[j]) /\ ~cfg[j].utf8})
+\* PkgDB::open by what the path is: a directory is a file-backed database; a regular file is
+\* taken for a (not implemented) sqlite database and iterates to nothing; anything else is an error
+OpenOutcome(root) == IF root \in {"dir", "file"} THEN "ok" ELSE "err"
+DbListed(root, cfg) == IF root = "dir" THEN Listed(cfg) ELSE {}
+DbErrors(root, cfg) == IF root = "dir" THEN ItemErrors(cfg) ELSE 0
 =============================================================================
